@@ -212,3 +212,12 @@ Definition check_interleave (c : interleave_case) : list string :=
   flat_map (fun p => tag_if (negb (forallb (Nat.eqb (fst p)) (snd p))) "viol:index-content-from-another-repository" ++
                      tag_if (match snd p with [] => true | _ => false end) "viol:index-without-its-repository-content")
            (il_returned c).
+
+(* ---- etag stage (final round): the same histories over remote repositories served with an ETag
+   (fv_mtime = the ETag's number); model = the per-ETag entries of indexCache.get with forget ---- *)
+From Apko Require Export Model.IndexCacheEtag.
+Definition check_etag (c : files_case) : list string :=
+  let loc := fun r => nth r (fc_locs c) "" in
+  let w0 : fworld := fun _ => [] in
+  files_tags loc (fc_arch c) w0 (fc_events c) ++
+  answers_tags (fc_events c) (erun loc (fc_arch c) vctx vctx_eqb (ctx_fixed loc (fc_arch c)) w0 ([], []) (fc_events c)).
